@@ -388,7 +388,12 @@ def run(ctx):
             return a[4] is ((a[1] == "Eq") != internal)
         return False
 
+    from checks.c01 import canon_target_key as _ctk
+
     def full(src, val, depth=4):
+        return _ctk(prog, _full(src, val, depth))
+
+    def _full(src, val, depth=4):
         """substitute value aliases (calls included) in a source expression"""
         class Sub(ast.NodeTransformer):
             def visit_Name(self, n):
@@ -458,7 +463,9 @@ def run(ctx):
     guard_ok = good
     seen_sites = 0
     for g in ({id(x): x for x in callers}.values() if good else []):
-        gx = _expand(prog, g, local_only=True)
+        from sa.desugar import lift_generators as _lift
+
+        gx = _lift(_expand(prog, g, local_only=True))
         gal, gval = P_.aliases(gx), P_.value_aliases(gx)
         # call sites that remain calls
         sites = [c for c in ast.walk(gx) if isinstance(c, ast.Call) and (dotted(c.func) or "").endswith("from_xml") and len(c.args) == 3]
